@@ -83,6 +83,10 @@ macro_rules! arith { ($Tr:ident $f:ident $op:expr, $N:ident, $what:literal) => {
         type Output = SymI<S>;
         fn $f(self, o: SymI<S>) -> SymI<S> {
             if let Some(c) = fold2($op, self.0, o.0) { return SymI::<S>::ranged(cnst(c), $what); }
+            // x+0, 0+x, x-0, x*1, 1*x are the operand itself in every machine type (no overflow possible)
+            let (za, zb) = (matches!(node(self.0), Node::Const(0, _)), matches!(node(o.0), Node::Const(0, _)));
+            let (oa, ob) = (matches!(node(self.0), Node::Const(1, _)), matches!(node(o.0), Node::Const(1, _)));
+            match $op { 0 if zb => return self, 0 if za => return o, 1 if zb => return self, 2 if ob => return self, 2 if oa => return o, _ => {} }
             SymI::<S>::ranged(mk(Node::$N(self.0, o.0)), $what)
         }
     }
@@ -105,6 +109,9 @@ impl<const S: bool> Div for SymI<S> {
         if let Some(c) = fold2(3, self.0, o.0) {
             return SymI::<S>::ranged(cnst(c), "/");
         }
+        if matches!(node(self.0), Node::Const(0, _)) {
+            return self; // 0 / y = 0 for every non-zero y (the divisor obligation is recorded above)
+        }
         SymI::<S>::ranged(mk(Node::IDiv(self.0, o.0)), "/")
     }
 }
@@ -121,6 +128,9 @@ impl<const S: bool> Rem for SymI<S> {
         });
         if let Some(c) = fold2(4, self.0, o.0) {
             return SymI::<S>::ranged(cnst(c), "%");
+        }
+        if matches!(node(self.0), Node::Const(0, _)) {
+            return self; // 0 % y = 0 for every non-zero y
         }
         // MIN % -1 overflows in Rust as well: the quotient must be representable
         let _q = SymI::<S>::ranged(mk(Node::IDiv(self.0, o.0)), "% (its quotient)");
@@ -197,25 +207,59 @@ pub trait IntLaw: Sc {
     /// triangle wave of period 2*up
     fn pingpong_law(r: Self, x: Self, up: Self) -> Fm;
 }
+/// every integer-sorted quotient term (`a / b`, and the quotient behind `a % b`) the executed code has built so far
+fn quotient_nodes() -> Vec<u32> {
+    with(|e| e.nodes.iter().enumerate().filter(|(_, n)| matches!(n, Node::IDiv(..))).map(|(i, _)| i as u32).collect())
+}
+/// candidate witnesses for "the difference is a multiple of the period": sums of the code's own quotients with
+/// coefficients in {-1,0,1} plus a constant in -2..=2 (an existential proved by exhibiting the witness; the
+/// disjunction is over a finite candidate set, so proving it proves the existential, never the converse)
+fn witnesses() -> Vec<u32> {
+    let qs = quotient_nodes();
+    let mut out = vec![];
+    let n = qs.len().min(4);
+    for code in 0..3usize.pow(n as u32) {
+        let mut c = code;
+        let mut acc: Option<u32> = None;
+        for q in qs.iter().take(n) {
+            let k = c % 3;
+            c /= 3;
+            acc = match (k, acc) {
+                (0, a) => a,
+                (1, None) => Some(*q),
+                (1, Some(a)) => Some(mk(Node::Add(a, *q))),
+                (_, None) => Some(mk(Node::Neg(*q))),
+                (_, Some(a)) => Some(mk(Node::Sub(a, *q))),
+            };
+        }
+        for d in -2i128..=2 {
+            out.push(match acc { None => cnst(d), Some(a) => if d == 0 { a } else { mk(Node::Add(a, cnst(d))) } });
+        }
+    }
+    out
+}
 impl<const S: bool> IntLaw for SymI<S> {
+    /// "r is congruent to x modulo the period hi - lo": there is an integer K with r - x = K * (hi - lo); together
+    /// with the separately proved `lo <= r < hi` that makes r *the* representative (uniqueness of Euclidean
+    /// division is arithmetic, not a fact about the code). K is exhibited from the code's own quotients.
     fn wrap_law(r: Self, x: Self, lo: Self, hi: Self) -> Fm {
-        let (q, m_) = (mk(Node::Var("wq".into())), mk(Node::Var("wm".into())));
         let period = mk(Node::Sub(hi.0, lo.0));
         let c = |c: Cond| Fm::C(with(|e| e.mk_cond(c)));
-        // definitional: x - lo = q*period + m, 0 <= m < period   (assumed only when the period is positive)
-        let def = and(vec![c(Cond::Eq(mk(Node::Sub(x.0, lo.0)), mk(Node::Add(mk(Node::Mul(q, period)), m_)))), c(Cond::Le(cnst(0), m_)), c(Cond::Lt(m_, period))]);
-        let h = imp(c(Cond::Lt(cnst(0), period)), def);
-        with(|e| e.hyps.push(("law/".into(), h)));
-        c(Cond::Eq(r.0, mk(Node::Add(lo.0, m_))))
+        let diff = mk(Node::Sub(r.0, x.0));
+        or(witnesses().into_iter().map(|k| c(Cond::Eq(diff, mk(Node::Mul(k, period))))).collect())
     }
+    /// triangle wave of period 2*up: r is congruent to x or to -x modulo 2*up (and, proved separately, 0 <= r <= up)
     fn pingpong_law(r: Self, x: Self, up: Self) -> Fm {
-        let (q, m_) = (mk(Node::Var("pq".into())), mk(Node::Var("pm".into())));
         let two = mk(Node::Add(up.0, up.0));
         let c = |c: Cond| Fm::C(with(|e| e.mk_cond(c)));
-        let def = and(vec![c(Cond::Eq(x.0, mk(Node::Add(mk(Node::Mul(q, two)), m_)))), c(Cond::Le(cnst(0), m_)), c(Cond::Lt(m_, two))]);
-        let h = imp(c(Cond::Lt(cnst(0), up.0)), def);
-        with(|e| e.hyps.push(("law/".into(), h)));
-        or(vec![and(vec![c(Cond::Le(m_, up.0)), c(Cond::Eq(r.0, m_))]), and(vec![c(Cond::Lt(up.0, m_)), c(Cond::Eq(r.0, mk(Node::Sub(two, m_))))])])
+        let (d1, d2) = (mk(Node::Sub(r.0, x.0)), mk(Node::Add(r.0, x.0)));
+        let mut alts = vec![];
+        for k in witnesses() {
+            let kp = mk(Node::Mul(k, two));
+            alts.push(c(Cond::Eq(d1, kp)));
+            alts.push(c(Cond::Eq(d2, kp)));
+        }
+        or(alts)
     }
 }
 
